@@ -20,6 +20,10 @@ fn split_mark_to_base_subtable(graph: &mut Graph, subtable: ObjectId) -> Option<
                                + u16::RAW_BYTE_LEN // empty mark array table
                                + u16::RAW_BYTE_LEN; // empty base array table
     let data = &graph.objects[&subtable];
+    // a subtable without mark classes cannot be split (and `chunks_exact(0)` in get_class_info panics)
+    if data.read_at::<u16>(6).unwrap_or(0) == 0 {
+        return None;
+    }
     let base_coverage_id = data.offsets[1].object;
     let base_coverage_size = graph.objects[&base_coverage_id].bytes.len();
     debug_assert!(data.reparse::<rgpos::MarkBasePosFormat1>().is_ok());
